@@ -88,6 +88,7 @@ contract ReplicasManager.Replicas
         && asptr(m, shardManager).sts.Status.Replicas == asptr(m, shardManager).sts.Status.UpdatedReplicas)
   modifies mapof(ReplicasManager.stsUpdatedTime), shardManager.* at {}, k8s.io/api/apps/v1.StatefulSet.* at {}, k8s.io/api/apps/v1.StatefulSetList.* at {}, gClock
   loop 1 invariant fresh(ret)
+  loop 1 invariant forall m in ret :: asptr(m, shardManager).sts != addr(s)
   loop 1 invariant[C18] forall m in ret :: isptr(m, shardManager) && asptr(m, shardManager) != nil && fresh(asptr(m, shardManager)) && allocated(asptr(m, shardManager)) && asptr(m, shardManager).sts != nil && fresh(asptr(m, shardManager).sts) && allocated(asptr(m, shardManager).sts)
         && asptr(m, shardManager).sts.Status.Replicas == asptr(m, shardManager).sts.Status.UpdatedReplicas
 @*/
